@@ -318,6 +318,13 @@ class C14(Engine):
 				p = (j + 0.5) / n
 				ops += [{'op': 'export', 'pick': p}, {'op': 'short-read', 'pick': p, 'frac': 0.5}, {'op': 'module-unload', 'pick': p}, {'op': 'import-old', 'pick': p}]
 			cases.append({'engine': 'session', 'pool': pool, 'ops': ops})
+		ex = pools.example_pool()
+		cases.append({'engine': 'history', 'pool': ex, 'ops': [run, run, {'op': 'edit', 'm': 'example.json', 'v': 1, 'dt': 10**9}, run, run]})
+		ops = []
+		for j in range(12):
+			p = (j + 0.5) / 12
+			ops += [{'op': 'export', 'pick': p}, {'op': 'db-unload' if j % 2 else 'module-unload', 'pick': p}, {'op': 'import', 'pick': p}, {'op': 'import', 'pick': p}]
+		cases.append({'engine': 'session', 'pool': ex, 'ops': ops})
 		return cases
 
 	def generate(self, rng: random.Random, index: int) -> dict[str, Any]:
